@@ -20,11 +20,14 @@ private object connect (int port) { return new ("/vuser.c"); }
 // finds no valid_bind() (a NULL result refuses)
 // `pol root <name>` / `pol bb <name>` change the answers (kept in the registry object, which does not exist yet when the
 // first master is loaded): a master reloaded later (`dest,m`) announces another root / backbone uid
+// (the answers are strings built at run time: nothing else holds them, so a driver that keeps the pointer across its next
+// master apply reads freed memory - which the sanitizer build reports)
+string fresh (string s) { return s[0..0] + s[1..]; }
 #ifndef C20_NO_ROOT
-string get_root_uid () { object r; r = find_object (REG); if (r && stringp (r->uid_name ("root"))) return r->uid_name ("root"); return "Root"; }
+string get_root_uid () { object r; r = find_object (REG); if (r && stringp (r->uid_name ("root"))) return fresh (r->uid_name ("root")); return fresh ("Root"); }
 #endif
 #ifndef C20_NO_BB
-string get_bb_uid () { object r; r = find_object (REG); if (r && stringp (r->uid_name ("bb"))) return r->uid_name ("bb"); return "Backbone"; }
+string get_bb_uid () { object r; r = find_object (REG); if (r && stringp (r->uid_name ("bb"))) return fresh (r->uid_name ("bb")); return fresh ("Backbone"); }
 #endif
 int valid_read (string path, mixed who, string fn) { return 1; }
 int valid_write (string path, mixed who, string fn) { return 1; }
